@@ -10,6 +10,8 @@
 (*   mulF, mulF2 : <<[id, id']>>  class of f*v and f^2*v for every class v, *)
 (*   vol <<id>>, volTable <<<<id>>>> (class of posV[p]*rotV[b]*f^3),        *)
 (*   positive (every stored entry and volume strictly positive, finite)]   *)
+(*   optional (growth G06): pref <<[n, m, id]>> = get_full_prefactors in   *)
+(*   stored order, prefT lookup table, prefPure, prefErr                   *)
 (* Value classes: relative 1e-9, shared by all numbers of the record.      *)
 (***************************************************************************)
 EXTENDS Integers, Sequences, FiniteSets, TLC, Json, IOUtils
@@ -35,6 +37,18 @@ Want(r, posM, rotM, scale, posScaled, n, m) ==
       p1 == n \div b  p2 == m \div b  b1 == n % b  b2 == m % b
   IN IF b1 = b2 THEN (IF posScaled THEN scale[posM[p1 + 1][p2 + 1]] ELSE posM[p1 + 1][p2 + 1])
      ELSE (IF posScaled THEN rotM[b1 + 1][b2 + 1] ELSE scale[rotM[b1 + 1][b2 + 1]])
+
+(* growth G06: FullGrid.get_full_prefactors = S_nm / (h_nm V_n), entry by entry in the stored order of the border matrix
+   (the code divides the data arrays of the border and the distance matrix position by position); the quotient classes
+   come as a lookup table prefT <<[borderId, distanceId, volumeId, quotientId]>> computed numerically by the harness *)
+PrefClause(r) ==
+  LET T4 == TLCEval({<<t[1], t[2], t[3], t[4]>> : t \in ToSet(r.prefT)})
+  IN IF r.prefErr # "" THEN "exception:" \o r.prefErr
+     ELSE IF Order(r.pref) # Order(r.fullB) THEN "prefactor matrix differs from the border matrix in pattern or stored order"
+     ELSE IF \E k \in 1 .. Len(r.pref) : <<r.fullB[k][3], r.fullD[k][3], r.vol[r.pref[k][1] + 1], r.pref[k][3]>> \notin T4
+          THEN "prefactor entry is not border / (distance x volume of the row cell)"
+     ELSE IF ~r.prefPure THEN "asking for the prefactors changed what the grid answers afterwards (borders / distances / volumes)"
+     ELSE "ok"
 
 ClauseG(r, verdict) ==
   LET n == r.nP * r.nB
@@ -68,6 +82,7 @@ ClauseG(r, verdict) ==
           THEN "the factor f is applied to another family than in the other grids"
      ELSE IF \E k \in 0 .. (n - 1) : r.vol[k + 1] # r.volTable[(k \div r.nB) + 1][(k % r.nB) + 1]
           THEN "6D volume is not position volume x rotation volume x f^3 in cell order"
+     ELSE IF "pref" \in DOMAIN r THEN PrefClause(r)
      ELSE "ok"
 
 Clause(r) == ClauseG(r, TRUE)
